@@ -138,6 +138,10 @@ func (o *objectGoSlice) shrink(size int) {
 
 func (o *objectGoSlice) putIdx(idx int, v Value, throw bool) {
 	if idx >= len(*o.data) {
+		if idx == math.MaxInt {
+			// idx+1 would wrap around
+			panic(rangeError("Slice size is too large: " + strconv.Itoa(idx)))
+		}
 		o.grow(idx + 1)
 	}
 	(*o.data)[idx] = v.Export()
